@@ -118,6 +118,18 @@ TABLE={ # id: (property, demo file, package dir, -run pattern, needs)
  "C03-f":("C03","zz_seed_demo_test.go","service","TestSeedDemo","difficulty bits that decode to a target of exactly zero"),
  "C08-f":("C08","zz_seed_demo_test.go","transports/http/endpoints/api/merkleroots","TestSeedDemo","a lastEvaluatedKey that belongs to a STALE or ORPHAN header (real SQL)"),
  "C05-g":("C05","zz_seed_demo_test.go","database","TestSeedDemo","a process kill inside a write transaction after sqlite has started writing pages (journal kept in memory by the DSN)"),
+ "C18-f":("C18","zz_seed_demo_test.go","transports/p2p","TestSeedDemo","two different hosts banned with overlapping ban periods, then a connection from the first"),
+ "C02-g":("C02","zz_seed_demo_test.go","transports/http/endpoints/api/merkleroots","TestSeedDemo","a verify request of at least two items with an INVALID item that is not the last one"),
+ "C20-b":("C20","zz_seed_demo_test.go","config","TestSeedDemo","engine postgres with complete settings, prepared_db on and the prepared file missing or unset"),
+ "C15-f":("C15","zz_seed_demo_test.go","service","TestSeedDemo","two concurrent Add calls of sibling headers of the tip (shared lock for ordinary headers)"),
+ "C20-a":("C20","zz_seed_demo_test.go","config","TestSeedDemo","BHS_P2P_EXPERIMENTAL set and no configuration file naming p2p.experimental"),
+ "C13-g":("C13","zz_seed_demo_test.go","database","TestSeedDemo","a longest chain with a block stamped earlier than its parent inside the requested range (real SQL)"),
+ "C16-h":("C16","zz_seed_demo_test.go","transports/http/endpoints/api/merkleroots","TestSeedDemo","a POST whose body cannot be bound on one of the three body-binding routes"),
+ "C11-g":("C11","zz_seed_demo_test.go","service","TestSeedDemo","a duplicate submission of a header stored as STALE or ORPHAN"),
+ "C10-f":("C10","zz_seed_demo_test.go","transports/websocket","TestSeedDemo","a token used on a websocket connect, then revoked, then used on a websocket connect again"),
+ "C12-h":("C12","zz_seed_demo_test.go","database/repository","TestSeedDemo","a cached webhook list, a webhook deactivated by failures, the same url registered again, then a further event"),
+ "C20-c":("C20","zz_seed_demo_test.go","config","TestSeedDemo","the config-file option naming a file called config.yaml in another directory"),
+ "C01-g":("C01","zz_seed_demo_test.go","service","TestSeedDemo","a competing header whose cumulative work exactly equals the tip's"),
 }
 ENV=dict(os.environ,GOFLAGS="-mod=mod",GOPROXY="off")
 def run(cmd,cwd,timeout=1500):
